@@ -1,6 +1,6 @@
 # -*- coding: utf-8 -*-
 
-import struct, io, binascii, itertools, collections, pickle, sys, os, hashlib, importlib, importlib.machinery, importlib.util
+import struct, io, binascii, itertools, collections, pickle, sys, os, re, hashlib, importlib, importlib.machinery, importlib.util
 
 from construct.lib import *
 from construct.expr import *
@@ -2762,7 +2762,7 @@ class RepeatUntil(Subconstruct):
         return f"{fname}(obj, io, this)"
 
     def _emitfulltype(self, ksy, bitwise):
-        return dict(type=self.subcon._compileprimitivetype(ksy, bitwise), repeat="until", repeat_until=repr(self.predicate).replace("obj_","_"))
+        return dict(type=self.subcon._compileprimitivetype(ksy, bitwise), repeat="until", repeat_until=re.sub(r"(?<![\w'\"])obj_(?![\w'\"])", "_", repr(self.predicate)))
 
 
 #===============================================================================
